@@ -62,7 +62,7 @@ fn elidable(g: &G) -> Vec<usize> {
         for (k, c) in kids.iter().enumerate() {
             let child_safe = safe
                 && match g {
-                    Filter(..) | TryMap(..) | TryMapWith(..) | Unwrapped(_) => false,
+                    Filter(..) | TryMap(..) | TryMapWith(..) | Unwrapped(_) | IntoIter(..) => false,
                     ThenWithCtx(..) | IgnoreWithCtx(..) => k != 0,
                     G::Rep(r) => !matches!(r.sink, Sink::Str),
                     // a recursive definition's value flows to every reference
